@@ -104,4 +104,62 @@ theorem SnakeRounds.length {n : Nat} {d d1 : Diagram} (hd : d.WF) (hv : d.boxesV
     have := ih w v
     omega
 
+/-! ### The final `normalize` never raises either -/
+
+theorem Diagram.interchange_of_adj {d x : Diagram} {i : Nat} {left : Bool}
+    (hi : i + 1 < d.boxes.length) (h : d.interchangeAdj i left = .ok x) :
+    d.interchange (i : Int) ((i : Int) + 1) left = .ok x := by
+  unfold Diagram.interchange
+  rw [if_neg (by omega), if_neg (by omega), if_neg (by omega)]
+  have e1 : ((i : Int) + 1 - (i : Int)).toNat = 1 := by omega
+  have e2 : (i : Int).toNat = i := by omega
+  rw [e1, e2]
+  simp only [interchangeDown, h]
+
+/-- A redex (rewriting.py:118-119) can always be interchanged. -/
+theorem Diagram.redex_interchange {d : Diagram} {left : Bool} {i : Nat} (hd : d.WF)
+    (h : d.redex left i = true) : ∃ d', d.interchange (i : Int) ((i : Int) + 1) left = .ok d' := by
+  unfold Diagram.redex at h
+  split at h
+  · rename_i b0 b1 o0 o1 e0 e1 e2 e3
+    have hi : i + 1 < d.boxes.length := (List.getElem?_eq_some_iff.mp e1).1
+    have hfree : freeAt d i := by
+      refine ⟨o0, o1, b0, b1, e2, e3, e0, e1, ?_⟩
+      simp only [Bool.or_eq_true, Bool.and_eq_true, decide_eq_true_eq] at h
+      rcases h with ⟨_, h⟩ | ⟨_, h⟩
+      · exact Or.inr h
+      · exact Or.inl h
+    obtain ⟨d', hd'⟩ := (Diagram.interchangeAdj_ok_iff (left := left) hd hi).1.mpr hfree
+    exact ⟨d', Diagram.interchange_of_adj hi hd'⟩
+  · cases h
+
+theorem normalizePass_total {left : Bool} (n : Nat) : ∀ {i : Nat} {d : Diagram} {acc : List Diagram},
+    d.WF → ∃ r, normalizePass left n i d acc = .ok r := by
+  induction n with
+  | zero => intro i d acc _; exact ⟨_, rfl⟩
+  | succ n ih =>
+    intro i d acc hd
+    simp only [normalizePass]
+    split
+    · rename_i hr
+      obtain ⟨d', hd'⟩ := Diagram.redex_interchange hd hr
+      have hd'' : d.interchange (i : Int) ((i : Int) + 1) left = .ok d' := hd'
+      simp only [hd'']
+      exact ih (Diagram.interchange_wf hd hd').1
+    · exact ih hd
+
+theorem normalizeTrace_total {left : Bool} (fuel : Nat) : ∀ {d : Diagram} {acc : List Diagram},
+    d.WF → ∃ r, normalizeTrace left fuel d acc = .ok r := by
+  induction fuel with
+  | zero => intro d acc _; exact ⟨_, rfl⟩
+  | succ fuel ih =>
+    intro d acc hd
+    simp only [normalizeTrace]
+    obtain ⟨⟨d', steps⟩, hp⟩ := normalizePass_total (left := left) (d.boxes.length - 1) (i := 0)
+      (acc := []) hd
+    simp only [hp]
+    split
+    · exact ⟨_, rfl⟩
+    · exact ih (normalizePass_wf hd (by simp) hp).1.1
+
 end DV
